@@ -2,8 +2,9 @@ CONSTANT Families = {"eval", "order", "rep", "full", "opt"}
 CONSTANT BkMax = 6
 CONSTANT Nords = {1, 2, 3, 4, 5, 6}
 CONSTANT SpreadSel = "all"
+CONSTANT RepLen = 5
 CONSTANT OrderLen = 4
-CONSTANT FullNords = {1, 2, 3, 4, 5, 6}
+CONSTANT FullNords = {1, 2, 3, 4, 5}
 CONSTANT FullExtra = {0, 1, 2}
 CONSTANT Ns = {2, 3, 4, 5, 6, 7, 8, 9, 10, 11, 12}
 CONSTANT AgreeNords = {1, 2, 3, 4, 5, 6}
